@@ -156,5 +156,3 @@ theorem ed_reencode_take (cand : Bytes) (c0 : UInt8) (tl : Bytes) (hc : cand = c
     omega
 
 end Kyber.EmbedLib
-
-end Kyber.EmbedLib
